@@ -130,7 +130,8 @@ func runE2EFiles(c *core.Ctx) {
 			fmt.Fprintf(&sb, ">%s {\"k\":%d}\n%s\n", r.ID, r.K, r.Seq)
 			want = append(want, r.ID)
 		}
-		p := filepath.Join(c.Dir, fmt.Sprintf("mf-%d-%d.fasta", c.Idx, f))
+		// the files are read in the order of the command line, which is not the order of their names
+		p := filepath.Join(c.Dir, fmt.Sprintf("mf-%d-%c-%d.fasta", c.Idx, 'a'+rune(c.Rng.Intn(26)), f))
 		os.WriteFile(p, []byte(sb.String()), 0o644)
 		defer os.Remove(p)
 		if c.Idx%3 == 2 && n >= 3 && c.Rng.Intn(2) == 0 {
@@ -432,5 +433,73 @@ func runE2ETty(c *core.Ctx) {
 	}
 	if c.Idx < 2 {
 		c.Sample(det)
+	}
+}
+
+// runE2EMatesUnequal: --paired-with given a mate file that does not hold the same number of reads as the
+// forward file (a truncated download, the wrong lane). Whatever the command makes of it, it terminates:
+// the reads of the longer file that find no partner must not leave a reader blocked for ever.
+func runE2EMatesUnequal(c *core.Ctx) {
+	bs := []int{1, 2, 5, 50}[c.Idx%4]
+	n := bs * (1 + c.Rng.Intn(4))
+	if c.Idx%8 >= 4 {
+		n += c.Rng.Intn(bs) // the last forward batch is partial
+	}
+	// the longer file holds 1-3 complete batches more, or only a few reads more
+	extra := bs * (1 + c.Rng.Intn(3))
+	if c.Idx%3 == 2 {
+		extra = 1 + c.Rng.Intn(bs)
+	}
+	mateLonger := (c.Idx/2)%2 == 0
+	nf, nr := n, n+extra
+	if !mateLonger {
+		nf, nr = n+extra, n
+	}
+	dir := filepath.Join(c.Dir, fmt.Sprintf("uneq-%d", c.Idx))
+	os.MkdirAll(dir, 0o755)
+	defer os.RemoveAll(dir)
+	recs := itx.MkRecs(c.Rng, "r", max(nf, nr))
+	var f, r strings.Builder
+	for i, x := range recs {
+		if i < nf {
+			fmt.Fprintf(&f, ">%s {\"k\":%d}\n%s\n", x.ID, x.K, x.Seq)
+		}
+		if i < nr {
+			fmt.Fprintf(&r, ">%s {\"k\":%d}\n%s\n", x.ID, x.K, x.Seq)
+		}
+	}
+	fwd, rev, out := filepath.Join(dir, "fwd.fasta"), filepath.Join(dir, "rev.fasta"), filepath.Join(dir, "out.fasta")
+	os.WriteFile(fwd, []byte(f.String()), 0o644)
+	os.WriteFile(rev, []byte(r.String()), 0o644)
+	cpu := []int{1, 2, 8}[c.Rng.Intn(3)]
+	args := []string{"--no-progressbar", "--max-cpu", fmt.Sprint(cpu), "--batch-size", fmt.Sprint(bs), "-o", out, "--paired-with", rev, fwd}
+	res := cmdx.Run(filepath.Join(c.BinDir, "obiconvert"), args, cmdx.Opt{Timeout: 40 * time.Second})
+	c.Count("evaluations", 1)
+	c.Count("command_runs", 1)
+	cls := "forward-longer"
+	if mateLonger {
+		cls = "mate-longer"
+	}
+	if extra%bs == 0 {
+		cls += ":whole-batches"
+	}
+	c.Key("uneq/%s/%d/%d", cls, bs, cpu)
+	det := map[string]any{"forward_reads": nf, "mate_reads": nr, "batch_size": bs, "max_cpu": cpu, "exit": res.Exit, "stderr": cmdx.Diag(res.Stderr, 1200)}
+	if c.Idx < 2 {
+		c.Sample(det)
+	}
+	if res.TimedOut {
+		if res.Deadlock {
+			det["dump"] = cmdx.Tail(res.Stderr, 2500)
+			c.Violate("mates-unequal:deadlock:"+cls, "obiconvert --paired-with never terminates when the two files do not hold the same number of reads", det)
+		} else {
+			c.Inconclusive("watchdog on obiconvert --paired-with (unequal files)")
+		}
+		return
+	}
+	if res.Exit == 0 {
+		c.Count("unequal_mate_files_accepted", 1)
+	} else {
+		c.Count("unequal_mate_files_refused", 1)
 	}
 }
